@@ -38,6 +38,15 @@ def same(a, b):
     return type(a) == type(b) and a == b
 
 
+def same_value(got, exp):
+    """C02 compares node-sets as SETS (document order / duplicate-freeness is property C12)"""
+    if isinstance(got, list) and isinstance(exp, list):
+        if any(isinstance(x, tuple) for x in exp):
+            return False
+        return sorted(set(got)) == sorted(set(exp)) and len(set(got)) == len(got)
+    return same(got, exp)
+
+
 def canon_line(s):
     """both sides' result lines, with error classes collapsed"""
     if s is None:
@@ -71,15 +80,18 @@ def has_axis(e, axis, test=None):
     return uses(e, lambda x: x[0] == "path" and any(s[0] == axis and (test is None or s[1] == test) for s in x[3]))
 
 
-def classify(expr, doc_has_nonbmp, ref_units_agrees, got, exp):
-    """known-finding classes of a disagreement between the library and the reference"""
-    if has_axis(expr, "namespace"):
+def classify(c, got):
+    """known-finding class of a disagreement between the library and the reference: the class is
+    decided by re-running the reference with exactly that deviation switched on; the library's value
+    must then agree (anything else stays a violation)"""
+    if has_axis(c["expr"], "namespace"):
         return "K21"
-    if has_axis(expr, "attribute", "node"):
-        return "K24"
-    if ref_units_agrees:
-        return "K6"
-    # K5 / K13: number<->string corners inside the expression (tiny magnitudes, '-0')
+    for units, negzero, key in ((True, False, "K6"), (False, True, "K13"), (True, True, "K6")):
+        if units and not (c["nonbmp"] or any(ord(ch) > 0xFFFF for ch in c["str"])):
+            continue
+        alt = ref_eval(c, units=units, negzero=negzero)
+        if alt not in ("err", "skip") and got != "err" and same_value(got, alt):
+            return key
     return None
 
 
@@ -109,7 +121,9 @@ def gen_cases(ctx, n_docs, per_doc, depth):
         for _ in range(per_doc):
             g = xpgen.ExprGen(r, depth=r.choice([1, 2, 2, 3, depth]), variables=variables)
             e = g.gen()
-            cn = r.choice(nodes).id if r.random() < 0.8 else r.choice(elems)
+            # namespace declarations are not nodes of the XPath data model (the library keeps them as
+            # attribute-like nodes, reachable only through the namespace axis: known finding K21)
+            cn = r.choice([n.id for n in nodes if n.kind != "nsdecl"]) if r.random() < 0.8 else r.choice(elems)
             # context list: the siblings-or-self of the node, or a random list containing it
             if r.random() < 0.5 and nodes[cn].parent is not None and nodes[cn].kind not in ("attr", "nsdecl"):
                 cl = [c.id for c in nodes[cn].parent.children]
@@ -124,8 +138,8 @@ def gen_cases(ctx, n_docs, per_doc, depth):
     return cases
 
 
-def ref_eval(c, units=False):
-    ref = xpref.Ref(c["nodes"], c["vars"], units=units)
+def ref_eval(c, units=False, negzero=False):
+    ref = xpref.Ref(c["nodes"], c["vars"], units=units, negzero=negzero)
     pos = (c["cl"].index(c["ctx"]) + 1) if c["ctx"] in c["cl"] else 0
     try:
         return ref.ev(c["expr"], c["ctx"], pos, len(c["cl"]))
@@ -172,11 +186,9 @@ def evaluate(ctx, cases, impl, model):
             exp_cmp = None     # namespace nodes have no id in the library's numbering
         else:
             exp_cmp = exp
-        ok = (exp_cmp is not None) and ((got == "err" and exp == "err") or (got != "err" and exp != "err" and same(got, exp_cmp)))
+        ok = (exp_cmp is not None) and ((got == "err" and exp == "err") or (got != "err" and exp != "err" and same_value(got, exp_cmp)))
         if not ok:
-            alt = ref_eval(c, units=True) if c["nonbmp"] or any(ord(ch) > 0xFFFF for ch in c["str"]) else None
-            units_agree = alt is not None and alt != "err" and got != "err" and not isinstance(alt, list) and same(got, alt)
-            known = classify(c["expr"], c["nonbmp"], units_agree, got, exp)
+            known = classify(c, got)
             orc.append({"case": c["line"], "what": "%s with context node %d: library %r, Recommendation %r" % (c["str"], c["ctx"], got, exp),
                         "known": known, "expr": c["str"]})
     ctx.cov["distinct_nontrivial"] = ctx.cov.get("distinct_nontrivial", 0) + len(distinct)
